@@ -360,6 +360,17 @@ Section Eval.
     y <- to_string_dyn (dyn_value fuel) fuel (snd x) (fst x) ;;
     Ok (fst y).
 
+  (* the same, with the bookkeeping bit: a cyclic error was absorbed on the way, so the
+     per-call cache of evaluated values (not modelled) may show in the result *)
+  Definition read_string_marked (fuel : nat) (root : value) (name : string) (idx : Z) : bool :=
+    match get_value_dyn fuel root name idx fresh with
+    | Ok x => match to_string_dyn (dyn_value fuel) fuel (snd x) (fst x) with
+              | Ok y => act_marked (snd y)
+              | _ => act_marked (snd x)
+              end
+    | _ => false
+    end.
+
   (** fully evaluated value of a located value (following dynamic results) *)
   Fixpoint force (fuel : nat) (n : nat) (a : act) (v : loc) {struct n} : R loc :=
     match n with
